@@ -1436,6 +1436,15 @@ impl Planner {
         for key in &sort.keys {
             if let LogicalExpression::Property { variable, property } = &key.expression {
                 let col_name = format!("{}_{}", variable, property);
+                // ORDER BY above a RETURN that already projected this property (the Cypher
+                // clause order): the variable is gone, the value is the returned column
+                if !variable_columns.contains_key(variable)
+                    && let Some(&idx) =
+                        variable_columns.get(&expression_to_string(&key.expression))
+                {
+                    variable_columns.insert(col_name, idx);
+                    continue;
+                }
                 if !variable_columns.contains_key(&col_name) {
                     property_projections.push((
                         variable.clone(),
